@@ -242,3 +242,15 @@ Example C06_duplicates_same_result_nonvacuous :
   Engine.wf_state s1 = Gen.States.CANCELLED /\ map (EngineDen.rows_named s1) [0; 1; 2; 3] = [1; 1; 2; 2] /\
   List.length evs2 + 15 < List.length evs1.
 Proof. exact EngineDen.dup_demo_ok. Qed.
+
+(* for EVERY program (joins, cycles, commands): whatever is delivered again - start requests (first-run or
+   resume-issued), results, refresh jobs fired at any time - no task execution gets a second action execution
+   (a join on a cycle excepted: it is re-armed by design for the next iteration); event lists without operator
+   reruns (Proofs/EngineOnce.v) *)
+Require Mistral.Proofs.EngineOnce.
+Theorem C06_engine_redelivery_never_runs_a_task_twice : forall sp u evs,
+  forallb EngineOnce.once_ev evs = true ->
+  forall tid r, nth_error (Engine.tasks (Engine.run sp u evs)) tid = Some r -> EngineOnce.guarded sp r = true ->
+  EngineOnce.nacts (Engine.run sp u evs) tid <= 1.
+Proof. exact EngineOnce.once_per_run. Qed.
+Print Assumptions C06_engine_redelivery_never_runs_a_task_twice.
